@@ -1,7 +1,9 @@
 package simkit
 
 import (
+	"bufio"
 	"bytes"
+	"net"
 	"net/http"
 )
 
@@ -18,7 +20,29 @@ type Recorder struct {
 	Flushes      []int // body length at each Flush
 	Lenient      bool  // do not panic on invalid status (record it)
 	InvalidCode  int
+	Hijacked     bool
+	HijackBuf    bytes.Buffer // what was written to the hijacked connection
 }
+
+type hijackConn struct {
+	net.Conn
+	r *Recorder
+}
+
+func (h hijackConn) Write(p []byte) (int, error) { return h.r.HijackBuf.Write(p) }
+func (h hijackConn) Close() error                { return nil }
+
+// Hijack implements http.Hijacker: the "connection" records what is written to it.
+func (r *Recorder) Hijack() (net.Conn, *bufio.ReadWriter, error) {
+	r.Hijacked = true
+	c := hijackConn{r: r}
+	return c, bufio.NewReadWriter(bufio.NewReader(bytes.NewReader(nil)), bufio.NewWriter(c)), nil
+}
+
+// CloseNotify implements http.CloseNotifier (never fires).
+func (r *Recorder) CloseNotify() <-chan bool { return make(chan bool) }
+
+var _ http.Hijacker = (*Recorder)(nil)
 
 // NewRecorder returns an empty recorder.
 func NewRecorder() *Recorder { return &Recorder{H: http.Header{}} }
